@@ -518,9 +518,11 @@ class InternationalizationExtension(Extension):
         newstyle = self.environment.newstyle_gettext  # type: ignore
         node: nodes.Expr
 
-        # no variables referenced?  no need to escape for old style
-        # gettext invocations only if there are vars.
-        if not vars_referenced and not newstyle:
+        # no variables at all?  then old style gettext invocations are not
+        # %-formatted below and there is no need to escape.  Variables that
+        # are bound in the trans tag but not referenced still cause
+        # formatting, so the escaping has to stay.
+        if not variables and not newstyle:
             singular = singular.replace("%%", "%")
             if plural:
                 plural = plural.replace("%%", "%")
